@@ -80,6 +80,18 @@ TRUSTED["C04"] = TRUSTED["C13"] + [
     "contract of fdd.SD_est (proved under C13) at the call sites of SD_PreGER",
 ]
 
+TRUSTED["C18"] = [
+    "lazy-sum calculus: sums expanded into canonical monomial sums (uninterpreted functions of their free parameters), congruence lemma, "
+    "sum-bound lemma (point-wise bounds lift to the sums; premise checked at a skolem index)",
+    "A5.viii Cauchy-Schwarz for the lazy sums: |<x,y>|^2 <= <x,x><y,y>, Sxy^2 <= Sxx Syy (also for the centred sums of np.cov)",
+    "np.cov(x, y) by its definition (ddof = 1) in polynomial form; np.linalg.eigvals of a real symmetric 2x2 matrix: two reals with the "
+    "matrix's trace and determinant",
+    "A5.ix np.linalg.svd of an n x 2 real matrix: V orthogonal (rows/columns of V^T orthonormal); for the rank-one matrix r [alpha beta] the second "
+    "right singular vector is orthogonal to (alpha, beta)",
+    "arccos as an uninterpreted function with arccos([-1,1]) in [0, pi], arccos([0,1]) in [0, pi/2], arccos(1) = 0; sqrt with s >= 0, s^2 = x",
+    "stand-alone real lemmas are proved once and used by substitution (universal instantiation)",
+]
+
 ASSUMPTIONS = {
     "C09": [
         "a mode-shape vector in a pole table is either entirely non-finite or entirely finite",
@@ -103,7 +115,12 @@ ASSUMPTIONS["C14"] = ["number of datasets of a PreGER object enumerated (2); cha
 ASSUMPTIONS["C04"] = ["number of setups enumerated (2); reference/roving counts, record lengths, nxseg, pov, fs symbolic",
                       "reference blocks invertible at every line (well-conditioned references)"]
 
+ASSUMPTIONS["C18"] = ["all statements are over the reals: an arccos argument or a MAC value rounded just above 1 in floating point is outside the model "
+                      "(the nansum repair of MPD happens to cover the arccos case)"]
+
 NOT_DECIDED = {
+    "C18": ["invariance of MPD under a complex factor (needs equivariance of the SVD's right singular vectors)",
+            "floating-point rounding (e.g. MAC = 1.0000000000000002 on collinear shapes)"],
     "C13": ["what scipy's csd computes (Hermitian PSD, Welch equivalence, Parseval, gain-and-delay phase, sinusoid amplitudes): statements about scipy; "
             "the proof shows SD_est calls it with exactly the prescribed operands/parameters and returns its result unchanged ('per') or through the "
             "prescribed irfft-window-rfft chain ('cor')"],
